@@ -4296,7 +4296,15 @@ null_pc:
    while (  !frm.empty()
          && frm.top().GetInPreproc())
    {
+      const E_Token type = frm.top().GetOpenToken();
       frm.pop(__func__, __LINE__, pc);
+
+      // as above: an #endregion in the last line of the file (no final newline) closes its region
+      if (  type == CT_PP_ENDREGION
+         && frm.top().GetOpenToken() == CT_PP_REGION_INDENT)
+      {
+         frm.pop(__func__, __LINE__, pc);
+      }
    }
 
    // Throw out any VBRACE_OPEN at the end - implied with the end of file
